@@ -2,7 +2,7 @@
    Model: coq/C16/Model.v (resource ledger; ops = mechanism-level events).  Inv, row_wf, quiet, qvec, released are
    defined in ProofsInv.v / ProofsState.v and repeated in the comments below. *)
 From Coq Require Import List ZArith NArith Bool.
-From LTV.C16 Require Import ParamsGen Model Proofs ProofsInv ProofsState ProofsBlocks ParamsTie.
+From LTV.C16 Require Import ParamsGen Model Proofs ProofsInv ProofsState ProofsBlocks ProofsQueue ParamsTie.
 Import ListNotations.
 Open Scope Z_scope.
 
@@ -129,3 +129,54 @@ Theorem params_ok_now :
   (0 < Params.c16_max_size_pex)%Z.
 Proof. exact ParamsTie.params_ok_now. Qed.
 Print Assumptions params_ok_now.
+
+(* round 4 ------------------------------------------------------------------------------------------------------
+   The delayed-disconnect exit path: ConnectionList::erase(.., disconnect_delayed) (= Peer::disconnect) only queues the
+   connection (op DiscDelay), ConnectionList::disconnect_queued -- run by the scheduler entry
+   DownloadMain::m_delay_disconnect_peers -- erases every queued connection still in the list (op DiscFire).  ledger_inv,
+   counters_nonneg, block_owners_inv, stop_zero, restartable above quantify over ALL op lists and so cover the two new ops.
+
+   disconnect_queued_releases_all: from ANY reachable state, running the queue leaves every queued established connection
+   with nothing (released, as for Abort), its descriptor closed exactly once more, no unfinished block keeps a live
+   transfer of it, and the queue is empty *)
+Theorem disconnect_queued_releases_all : forall sd ops c r,
+  let s := run sd ops in
+  In c (dqueue s) -> get_row c (rows s) = Some r -> ph r = PConn ->
+  let s' := run sd (ops ++ [DiscFire]) in
+  dqueue s' = [] /\
+  (exists r', get_row c (rows s') = Some r' /\ released r' /\ closes r' = closes r + 1) /\
+  (forall b, In b (blocks s') -> fin b = false -> no_live_tr c b = true).
+Proof. exact ProofsQueue.disconnect_queued_releases_all. Qed.
+Print Assumptions disconnect_queued_releases_all.
+
+(* until the queue is run the queued connection keeps everything: the delayed disconnect changes nothing but the queue
+   (any state, not only reachable ones) *)
+Theorem delayed_disconnect_only_queues : forall s c r,
+  get_row c (rows s) = Some r -> ph r = PConn ->
+  let s' := step s (DiscDelay c) in
+  rows s' = rows s /\ g s' = g s /\ blocks s' = blocks s /\ dqueue s' = dqueue s ++ [c] /\ rej s' = rej s.
+Proof. exact ProofsQueue.delayed_disconnect_only_queues. Qed.
+Print Assumptions delayed_disconnect_only_queues.
+
+(* DownloadMain::stop leaves m_disconnectQueue as it is (only the scheduler entry is removed); the stale entries are
+   harmless: running the queue after a stop finds no connection, changes no row, counter or block, and empties the queue *)
+Theorem stale_queue_harmless_after_stop : forall sd ops,
+  active (run sd ops) = true ->
+  let s1 := run sd (ops ++ [Stop]) in
+  let s2 := run sd (ops ++ [Stop; DiscFire]) in
+  dqueue s1 = dqueue (run sd ops) /\
+  rows s2 = rows s1 /\ g s2 = g s1 /\ blocks s2 = blocks s1 /\ dqueue s2 = [] /\ rej s2 = rej s1.
+Proof. exact ProofsQueue.stale_queue_harmless_after_stop. Qed.
+Print Assumptions stale_queue_harmless_after_stop.
+
+(* non-vacuity of the three: a reachable unchoked connection sitting in the queue; running the queue, remote close followed
+   by the queue, and stop / start / queue all end with every counter zero *)
+Theorem delayed_disconnect_example :
+  (exists r, get_row 0 (rows (run true ex_dq_ops)) = Some r /\ ph r = PConn /\ uu r = true /\ tu r = true) /\
+  dqueue (run true ex_dq_ops) = [0%nat] /\ active (run true ex_dq_ops) = true /\ rej (run true ex_dq_ops) = false /\
+  nth 2 (g (run true ex_dq_ops)) 0 = 1 /\
+  g (run true (ex_dq_ops ++ [DiscFire])) = vz /\ rej (run true (ex_dq_ops ++ [DiscFire])) = false /\
+  g (run true (ex_dq_ops ++ [Abort 0; DiscFire])) = vz /\ rej (run true (ex_dq_ops ++ [Abort 0; DiscFire])) = false /\
+  dqueue (run true (ex_dq_ops ++ [Stop])) = [0%nat] /\ g (run true (ex_dq_ops ++ [Stop; Start; DiscFire])) = vz.
+Proof. exact ex_dq. Qed.
+Print Assumptions delayed_disconnect_example.
